@@ -337,7 +337,10 @@ Proof.
   - unfold inTree. destruct (lev s' b); auto. congruence.
 Qed.
 Lemma unassigned_bound s : unassigned s <= nb B - 1.
-Proof. unfold unassigned. rewrite <- (seq_length (nb B - 1) 1) at 2. apply filter_length. Qed.
+Proof.
+  unfold unassigned. rewrite <- (seq_length (nb B - 1) 1) at 2.
+  generalize (seq 1 (nb B - 1)). induction l as [|x l IH]; simpl; auto. destruct (negb (inTree s x)); simpl; lia.
+Qed.
 
 Hypothesis F_big : nb B + 1 <= F.
 
